@@ -14,10 +14,130 @@ One entry per function:
   locals                optional {python local: type} overriding the inference
   tie_theorem           the theorem of lean/BoltonsVerif/Cxx/SrcTie.lean that ties the generated
                         definition to the hand model
-Types: Int | Bool | Str (= List Char) | List T | Option T | T × U | α
+Types: Int | Bool | Str (= List Char) | List T | Option T | T × U | α | Dict K V | None (= Unit)
+
+Methods of a class WITH OBJECT STATE (round 3): the class is described once (`name`, `lean_name`, `tparams`,
+`deceq` = type variables used as dict keys, `state` = {attribute: type}); each method spec carries
+  cls                   the class description (its `methods` list is filled in below: callee lookup)
+  py                    Python name of the method (several specs may translate one method at different
+                        argument kinds: `update` of an iterable of keys / of a mapping)
+  raises                True: raising mode (exceptions as values, result `Except PyExc R`)
+  fuel                  True: the method is (mutually) recursive: extra parameter `fuel : Nat` (call depth)
+  kwargs                {name: Dict type} of `**name`
+The result is `R`, `Except PyExc R`, or paired with the new state (`… × Cls.St`) when the method changes it.
+A fixed-length LIST of ints that the code indexes with constants (`[count, delta]`) is declared as a product.
 """
 
+
+def _cls_methods(cls, module, methods):
+    out = []
+    for m in methods:
+        sp = dict(m)
+        sp.update(module=module, cls=cls, method=True, qualname='%s.%s' % (cls['name'], m['py']),
+                  lean_name='%s.%s' % (cls['lean_name'], m['name']))
+        sp.setdefault('kind', 'function')
+        sp.setdefault('raises', True)
+        del sp['name']
+        out.append(sp)
+    cls['methods'] = out
+    return out
+
+
+# boltons.cacheutils.ThresholdCounter.  `_thresh_count` (= int(1 / threshold), float arithmetic in __init__)
+# is a state field; __init__ itself is not translated.
+THRESHOLD_COUNTER = {
+    'name': 'ThresholdCounter', 'lean_name': 'ThresholdCounter', 'tparams': ['κ'], 'deceq': ['κ'],
+    'state': {'total': 'Int', '_count_map': 'Dict κ (Int × Int)', '_cur_bucket': 'Int', '_thresh_count': 'Int'},
+}
+_TC = _cls_methods(THRESHOLD_COUNTER, 'boltons.cacheutils', [
+    {'py': 'add', 'name': 'add', 'params': {'key': 'κ'}, 'result': 'None',
+     'tie_theorem': 'C20.src_add_eq_model'},
+    {'py': '__getitem__', 'name': 'getitem', 'params': {'key': 'κ'}, 'result': 'Int',
+     'tie_theorem': 'C20.src_getitem_eq_model'},
+    {'py': '__len__', 'name': 'len', 'params': {}, 'result': 'Int',
+     'tie_theorem': 'C20.src_len_eq_model'},
+    {'py': '__contains__', 'name': 'contains', 'params': {'key': 'κ'}, 'result': 'Bool',
+     'tie_theorem': 'C20.src_contains_eq_model'},
+    {'py': 'get', 'name': 'get', 'params': {'key': 'κ', 'default': 'Int'}, 'result': 'Int',
+     'tie_theorem': 'C20.src_get_eq_model'},
+    {'py': 'get_common_count', 'name': 'get_common_count', 'params': {}, 'result': 'Int',
+     'tie_theorem': 'C20.src_get_common_count_eq_model'},
+    {'py': 'get_uncommon_count', 'name': 'get_uncommon_count', 'params': {}, 'result': 'Int',
+     'tie_theorem': 'C20.src_get_uncommon_count_eq_model'},
+    {'py': 'iteritems', 'name': 'iteritems', 'params': {}, 'kind': 'generator', 'result': 'κ × Int',
+     'tie_theorem': 'C20.src_iteritems_eq_model'},
+    {'py': 'most_common', 'name': 'most_common', 'params': {'n': 'Option Int'}, 'result': 'List (κ × Int)',
+     'tie_theorem': 'C20.src_most_common_eq_model'},
+    {'py': 'update', 'name': 'update_map', 'params': {'iterable': 'Option (Dict κ Int)'},
+     'kwargs': {'kwargs': 'Dict κ Int'}, 'result': 'None', 'fuel': True,
+     'tie_theorem': 'C20.src_update_map_eq_model'},
+    {'py': 'update', 'name': 'update_keys', 'params': {'iterable': 'Option (List κ)'},
+     'kwargs': {'kwargs': 'Dict κ Int'}, 'result': 'None', 'fuel': True,
+     'tie_theorem': 'C20.src_update_keys_eq_model'},
+])
+
+
+# boltons.dictutils.OneToOne(dict).  The object IS its forward dict (spec field `fwd`, reached in the code as
+# `self` / `dict.<m>(self, ...)`); `self.inv` is an object of the same class that IS the inverse dict and whose
+# own `.inv` is `self`: one record, two fields, `St.swap` = the view from the other side (the convention of
+# C17/Model.lean).  `__init__` / `unique` / `copy` (`*a, **kw`, `self.__class__(...)`, marker objects) are not
+# translated.  `_MISSING` is the "argument omitted" marker of `pop`.
+ONE_TO_ONE = {
+    'name': 'OneToOne', 'lean_name': 'OneToOne', 'tparams': ['κ'], 'deceq': ['κ'],
+    'state': {'fwd': 'Dict κ κ', 'inv': 'Dict κ κ'},
+    'dict_base': 'fwd', 'peer': {'attr': 'inv', 'swap': {'fwd': 'inv', 'inv': 'fwd'}},
+    'sentinels': ['_MISSING'],
+}
+_OTO = _cls_methods(ONE_TO_ONE, 'boltons.dictutils', [
+    {'py': '__delitem__', 'name': 'delitem', 'params': {'key': 'κ'}, 'result': 'None',
+     'tie_theorem': 'C17.src_oto_delitem_eq_model'},
+    {'py': '__setitem__', 'name': 'setitem', 'params': {'key': 'κ', 'val': 'κ'}, 'result': 'None',
+     'tie_theorem': 'C17.src_oto_setitem_eq_model'},
+    {'py': 'clear', 'name': 'clear', 'params': {}, 'result': 'None',
+     'tie_theorem': 'C17.src_oto_clear_eq_model'},
+    {'py': 'pop', 'name': 'pop', 'params': {'key': 'κ', 'default': 'Option κ'}, 'result': 'κ',
+     'tie_theorem': 'C17.src_oto_pop_eq_model'},
+    {'py': 'popitem', 'name': 'popitem', 'params': {}, 'result': 'κ × κ',
+     'tie_theorem': 'C17.src_oto_popitem_eq_model'},
+    {'py': 'setdefault', 'name': 'setdefault', 'params': {'key': 'κ', 'default': 'κ'}, 'result': 'κ',
+     'tie_theorem': 'C17.src_oto_setdefault_eq_model'},
+    {'py': 'update', 'name': 'update_pairs', 'params': {'dict_or_iterable': 'List (κ × κ)'},
+     'kwargs': {'kw': 'Dict κ κ'}, 'result': 'None', 'tie_theorem': 'C17.src_oto_update_pairs_eq_model'},
+    {'py': 'update', 'name': 'update_dict', 'params': {'dict_or_iterable': 'Dict κ κ'},
+     'kwargs': {'kw': 'Dict κ κ'}, 'result': 'None', 'tie_theorem': 'C17.src_oto_update_dict_eq_model'},
+])
+
+# boltons.dictutils.ManyToMany.  `self.data` and `self.inv.data` (the inverse object's dict; `self.inv.inv is self`)
+# are the two fields of one record; `inv_data` is not an attribute name, the path `self.inv.data` is mapped to it.
+# Methods that ITERATE OVER A SET (`__setitem__`, `__delitem__`, `replace`, `iteritems`, `update(other
+# ManyToMany)`) are refused: Python does not specify the order and the translator has no proof of independence.
+MANY_TO_MANY = {
+    'name': 'ManyToMany', 'lean_name': 'ManyToMany', 'tparams': ['κ'], 'deceq': ['κ'],
+    'state': {'data': 'Dict κ (Set κ)', 'inv_data': 'Dict κ (Set κ)'},
+    'paths': {'inv.data': 'inv_data'}, 'virtual': ['inv_data'],
+}
+_M2M = _cls_methods(MANY_TO_MANY, 'boltons.dictutils', [
+    {'py': 'add', 'name': 'add', 'params': {'key': 'κ', 'val': 'κ'}, 'result': 'None',
+     'tie_theorem': 'C17.src_m2m_add_eq_model'},
+    {'py': 'remove', 'name': 'remove', 'params': {'key': 'κ', 'val': 'κ'}, 'result': 'None',
+     'tie_theorem': 'C17.src_m2m_remove_eq_model'},
+    {'py': '__getitem__', 'name': 'getitem', 'params': {'key': 'κ'}, 'result': 'Set κ',
+     'tie_theorem': 'C17.src_m2m_getitem_eq_model'},
+    {'py': 'get', 'name': 'get', 'params': {'key': 'κ', 'default': 'Set κ'}, 'result': 'Set κ',
+     'tie_theorem': 'C17.src_m2m_get_eq_model'},
+    {'py': '__contains__', 'name': 'contains', 'params': {'key': 'κ'}, 'result': 'Bool',
+     'tie_theorem': 'C17.src_m2m_contains_eq_model'},
+    {'py': '__len__', 'name': 'len', 'params': {}, 'result': 'Int',
+     'tie_theorem': 'C17.src_m2m_len_eq_model'},
+    {'py': 'update', 'name': 'update_pairs', 'params': {'iterable': 'List (κ × κ)'}, 'result': 'None',
+     'tie_theorem': 'C17.src_m2m_update_pairs_eq_model'},
+    {'py': 'update', 'name': 'update_dict', 'params': {'iterable': 'Dict κ κ'}, 'result': 'None',
+     'tie_theorem': 'C17.src_m2m_update_dict_eq_model'},
+])
+
 SPECS = {
+    'C20': _TC,
+    'C17': _OTO + _M2M,
     'C09': [
         {
             'module': 'boltons.iterutils', 'qualname': 'chunk_ranges', 'lean_name': 'chunk_ranges',
